@@ -337,3 +337,75 @@ def ref_encode(api, a, now_ms):
         return RC.encode_request(*e)
     except (RC.CodecError, UnicodeDecodeError):
         return None
+
+
+# --------------------------------------------------------------------------- the same request as a value of the Lean grammar
+
+def spec_request(api, a, now_ms):
+    """(header V, body V) for `spec-enc-req <api>` / what `spec-dec-req <api>` must give back, built from the
+    caller's arguments independently of refcodec's dict; None when the arguments are outside the value space."""
+    def regroup(rows, mk):
+        keys = [(r[0], r[1]) for r in rows]
+        if any(t is None for t, _ in keys) or len(set(keys)) != len(keys):
+            return None
+        return [[t, ps] for t, ps in _regroup([(r[0], mk(r)) for r in rows])]
+
+    try:
+        if api == "produce":
+            if a[5] < 0:
+                return None
+            ver = min(a[5], 2)
+
+            def mk(r):
+                es = []
+                for magic, attrs, key, value, ts in r[2]:
+                    if magic not in (0, 1) or not (0 <= attrs <= 255) or (magic == 1 and ver < 2):
+                        raise ValueError
+                    es.append([0, [magic, attrs, ((now_ms if ts is None else ts) if magic == 1 else None), key, value]])
+                return [r[1], es]
+
+            tl = regroup(a[2], mk)
+            return None if tl is None else ([0, ver, a[1], a[0]], [a[3], a[4], tl])
+        if api == "fetch":
+            if a[5] < 0:
+                return None
+            tl = regroup(a[2], lambda r: [r[1], r[2], r[3]])
+            return None if tl is None else ([1, min(a[5], 2), a[1], a[0]], [-1, a[3], a[4], tl])
+        if api == "offset":
+            tl = regroup(a[2], lambda r: [r[1], r[2], r[3]])
+            return None if tl is None else ([2, 0, a[1], a[0]], [-1, tl])
+        if api == "metadata":
+            return None if any(t is None for t in a[2]) else ([3, 0, a[1], a[0]], list(a[2]))
+        if api == "consumermetadata":
+            return None if a[2] is None else ([10, 0, a[1], a[0]], a[2])
+        if api == "offset_commit":
+            if a[2] is None or a[4] is None:
+                return None
+            tl = regroup(a[5], lambda r: [r[1], r[2], r[3], r[4]])
+            return None if tl is None else ([8, 1, a[1], a[0]], [a[2], a[3], a[4], tl])
+        if api == "offset_fetch":
+            if a[2] is None:
+                return None
+            tl = regroup(a[3], lambda r: r[1])
+            return None if tl is None else ([9, 1, a[1], a[0]], [a[2], tl])
+        if api == "join_group":
+            if None in (a[2], a[4], a[5]) or any(n is None or md is None for n, md in a[6]):
+                return None
+            return ([11, 0, a[1], a[0]], [a[2], a[3], a[4], a[5], [[n, md] for n, md in a[6]]])
+        if api == "sync_group":
+            if None in (a[2], a[4]) or any(m is None or md is None for m, md in a[5]):
+                return None
+            return ([14, 0, a[1], a[0]], [a[2], a[3], a[4], [[m, md] for m, md in a[5]]])
+        if api == "heartbeat":
+            return None if None in (a[2], a[4]) else ([12, 0, a[1], a[0]], [a[2], a[3], a[4]])
+        if api == "leave_group":
+            return None if None in (a[2], a[3]) else ([13, 0, a[1], a[0]], [a[2], a[3]])
+        if api == "api_versions":
+            return ([18, 0, a[1], a[0]], []) if (a[2], a[3]) == (18, 0) else None
+    except ValueError:
+        return None
+    return None
+
+
+SPEC_REQ_APIS = ["produce", "fetch", "offset", "metadata", "consumermetadata", "offset_commit", "offset_fetch",
+                 "join_group", "sync_group", "heartbeat", "leave_group", "api_versions"]
